@@ -391,3 +391,5 @@ m("c09-buffer-target-not-bound", "C09", "O9.4", (D + "buffer.py", "        super
 m("c17-line-empty-payload", "C17", "O17.8", (M + "format_line.py", "        if args == ({},):  # logger.info('message', {}) -> record.args == ({},)\n            args = {}", "        if args == ({},):  # logger.info('message', {}) -> record.args == ({},)\n            pass"))
 m("c17-json-empty-payload", "C17", "O17.8", (M + "format_json.py", "        if args == ({},):  # logger.info('message', {}) -> record.args == ({},)\n            args = {}", "        if args == ({},):  # logger.info('message', {}) -> record.args == ({},)\n            pass"))
 n("c17-n-empty-payload-ifexp", "C17", (M + "format_json.py", "        args = record.args\n        if args == ({},):  # logger.info('message', {}) -> record.args == ({},)\n            args = {}", "        args = {} if record.args == ({},) else record.args"))
+n("c11-n-lock-short-section", "C11", (R + "meta_runner.py", "        self.running = threading.Event()\n", "        self.running = threading.Event()\n        self._table_lock = threading.Lock()\n"), (R + "meta_runner.py", "        return self._runners[flavour].run_payload(payload)", "        with self._table_lock:\n            runner = self._runners[flavour]\n        return runner.run_payload(payload)"), (R + "meta_runner.py", "        try:\n            runner = self._runners[flavour]\n        except KeyError:", "        try:\n            with self._table_lock:\n                runner = self._runners[flavour]\n        except KeyError:"))
+m("c11-lock-across-execute", "C11", "O11.6", (R + "meta_runner.py", "        self.running = threading.Event()\n", "        self.running = threading.Event()\n        self._table_lock = threading.Lock()\n"), (R + "meta_runner.py", "        return self._runners[flavour].run_payload(payload)", "        with self._table_lock:\n            return self._runners[flavour].run_payload(payload)"), (R + "meta_runner.py", "        try:\n            runner = self._runners[flavour]\n        except KeyError:", "        try:\n            with self._table_lock:\n                runner = self._runners[flavour]\n        except KeyError:"))
